@@ -32,7 +32,7 @@ def timeout(tier):
 def floors(tier):
     return {"calls": 20000, "returned": 3000, "raised_expected": 5000, "class.chars": 500, "class.mutated": 1000,
             "class.digits": 100, "class.deep": 50, "class.long": 30, "class.rings": 100, "class.valid": 300,
-            "class.aromatic": 100, "flags.strict": 5000, "flags.attribute": 5000, "steps": 1000000, "M4.calls": 300, "atheris.executions": 100000}
+            "class.aromatic": 100, "class.aromatic-any-element": 300, "flags.strict": 5000, "flags.attribute": 5000, "steps": 1000000, "M4.calls": 300, "atheris.executions": 100000}
 
 
 def run(ctx):
